@@ -320,3 +320,42 @@ Definition compile_list (fresh : nat -> nat) (run1 : I -> R) (finish_order : lis
   let done := map (fun ji => (fst ji, run1 (snd ji))) (finish_order jobs) in
   collect (map fst jobs) done.
 End ListPath.
+
+(* ---- PermutationAwareSynthesisPass.synthesize: permutation bookkeeping ------------------ *)
+(* passes/synthesis/pas.py.  Everything numerical is an argument: [lmulT po t] = Po.T @ t,
+   [rmul t pi] = t @ Pi (Po, Pi = PermutationMatrix.from_qudit_location of the tuples),
+   [synth i t] = inner_synthesis.synthesize on the i-th target, [score] = scoring_fn.
+   perms = it.permutations(range(width)), idp = tuple(range(width)). *)
+Section PAS.
+Variables (T C P : Type).
+Variable perms : list P.
+Variable idp : P.
+Variable lmulT : P -> T -> T.
+Variable rmul : T -> P -> T.
+Variable synth : nat -> T -> C.
+Variable score : C -> Z.
+
+(* permsbyperms zipped with targets, in the order of it.product *)
+Definition pas_candidates (input_perm output_perm : bool) (utry : T) : list ((P * P) * T) :=
+  if input_perm && output_perm then
+    flat_map (fun pi => map (fun po => ((pi, po), lmulT po (rmul utry pi))) perms) perms
+  else if input_perm then map (fun pi => ((pi, idp), rmul utry pi)) perms
+  else if output_perm then map (fun po => ((idp, po), lmulT po utry)) perms
+  else [((idp, idp), utry)].
+
+(* `if score < best_score:` - the first candidate of least score wins *)
+Fixpoint pas_pick (best : (P * P) * C) (l : list ((P * P) * C)) : (P * P) * C :=
+  match l with
+  | [] => best
+  | x :: r => pas_pick (if score (snd x) <? score (snd best) then x else best) r
+  end.
+
+(* returns (best_circuit, data['initial_mapping'], data['final_mapping']); None = circuits[0] IndexError *)
+Definition pas (input_perm output_perm : bool) (utry : T) : option (C * P * P) :=
+  let cands := pas_candidates input_perm output_perm utry in
+  let circs := mapi (fun i pt => (fst pt, synth i (snd pt))) 0%nat cands in
+  match circs with
+  | [] => None
+  | x :: r => let b := pas_pick x r in Some (snd b, fst (fst b), snd (fst b))
+  end.
+End PAS.
